@@ -89,7 +89,14 @@ def _cases(draw):
     rules = implicit.compile_rules(_device(model, tags))
     t = _gen_level(rnd, rules)
     u = _gen_level(rnd, rules) if rnd.chance(60) else _mut(rnd, t)
-    return {"family": fi, "t": RL.plain(t), "u": RL.plain(u)}
+    case = {"family": fi, "t": RL.plain(t), "u": RL.plain(u)}
+    if rnd.chance(25):
+        # the production step (annet.gen._old_new_per_device with implicit completion on): t is what the device reports (sometimes
+        # nothing at all), u is what the generators yield
+        case["pipeline"] = True
+        if rnd.chance(35):
+            case["t"] = {}
+    return case
 
 
 def _mut(rnd, t):
@@ -144,6 +151,118 @@ def _is_subtree(a, b):
     return True
 
 
+def _canon_rules(rules):
+    return [[row, r["type"], r["regexp"].pattern, r["regexp"].flags, _canon_rules(r["children"])] for row, r in rules.items()]
+
+
+def _baseline_one(fi):
+    from annet import implicit
+    from vf.model import sut  # noqa: F401  (sets the connectors)
+    model, tags = FAMILIES[fi]
+    return fi, _canon_rules(implicit.compile_rules(_device(model, tags)))
+
+
+def _baseline_path():
+    import os
+    from vf.core.runner import VERIF
+    return os.path.join(VERIF, ".scratch", "c17_baseline.json")
+
+
+def prepare(tier, seed):
+    """the implicit rule set of every family, each compiled in a process that has seen no other device"""
+    import json
+    import multiprocessing as mp
+    import os
+    ctx = mp.get_context("spawn")
+    with ctx.Pool(min(16, os.cpu_count() or 1), maxtasksperchild=1) as pool:
+        out = pool.map(_baseline_one, list(range(len(FAMILIES))), chunksize=1)
+    os.makedirs(os.path.dirname(_baseline_path()), exist_ok=True)
+    with open(_baseline_path(), "w") as f:
+        json.dump({str(fi): c for fi, c in out}, f)
+
+
+_BASE = None
+
+
+def _baseline():
+    global _BASE
+    import json
+    import os
+    if _BASE is None:
+        if not os.path.exists(_baseline_path()):
+            prepare("quick", 1)
+        with open(_baseline_path()) as f:
+            _BASE = json.load(f)
+    return _BASE
+
+
+class _PDev:
+    def __init__(self, hw, tags):
+        import types as _t
+        self.hw, self.hostname, self.fqdn, self.id, self.tags, self.breed = hw, "d1", "d1.x", 1, list(tags), "x"
+        self.storage = _t.SimpleNamespace(flush_perf=lambda: {})
+
+    def is_pc(self):
+        return False
+
+
+def _pipeline(case, dev0, rules, labels):
+    """old and new as annet.gen._old_new_per_device builds them == the reference completion of (device text, generator output)"""
+    import logging
+    import types as _t
+    from unittest import mock
+
+    from annet import gen as G
+    from annet.generators import PartialGenerator
+    from vf.model import sut
+    logging.disable(logging.CRITICAL)
+    model, tags = FAMILIES[case["family"]]
+    dev = _PDev(dev0.hw, tags)
+    t, u = RL.to_odict(case["t"]), RL.to_odict(case["u"])
+    fmt = sut.registry().match(dev.hw).make_formatter()
+    text = fmt.join(t)
+
+    def emit(self, tree):
+        for row, ch in tree.items():
+            if ch:
+                with self.block(row):
+                    yield from emit(self, ch)
+            else:
+                yield row
+
+    def run(self, device):
+        yield from emit(self, u)
+    gen = type("VGen", (PartialGenerator,), {"run": run, "acl": lambda self, device: ""})(_t.SimpleNamespace(flush_perf=lambda: {}))
+
+    class Args:
+        no_acl = True; no_acl_exclusive = False; acl_safe = False; profile = False; fail_on_empty_config = False
+        generators_context = None; filter_acl = None; filter_ifaces = None; filter_peers = None; filter_policies = None
+        required_packages_check = False
+    dg = G.DeviceGenerators(partial={dev: [gen]}, ref={dev: []}, entire={dev: []}, json_fragment={dev: []})
+    ctx = G.OldNewDeviceContext(config="running", args=Args(), downloaded_files={}, failed_files={}, running={dev: text}, failed_running={},
+                                no_new=False, stdin={"filter_acl": None, "config": None}, add_annotations=False, add_implicit=True,
+                                do_files_download=False, gens=dg, fetched_packages={}, failed_packages={}, device_count=1,
+                                do_print_perf=False)
+    with mock.patch("annet.generators.run_partial_initial") as rpi:
+        rpi.return_value = mock.Mock(config_tree=lambda: odict(), perf_mesures=lambda: {})
+        res = G._old_new_per_device(ctx, dev, mock.Mock())
+    if res.err:
+        raise Violation("pipeline-error", f"{model}: _old_new_per_device failed: {res.err!r}", {"model": model, "t": case["t"], "u": case["u"]})
+    for name, got, src in (("old", res.old, t), ("new", res.new, u)):
+        exp = ref_complete(src, rules, [], [])
+        if _unordered(got) != _unordered(exp):
+            raise Violation("pipeline-completion-differs", f"{model}: {name} built by the gen step is {RL.plain(got)!r}; completing "
+                            f"{RL.plain(src)!r} with the device's defaults gives {RL.plain(exp)!r}"[:900],
+                            {"model": model, "t": case["t"], "u": case["u"], "side": name})
+    labels.append("pipeline")
+    if not t:
+        labels.append("pipeline-empty-device-config")
+
+
+def _unordered(t):
+    return {k: _unordered(v) for k, v in t.items()}
+
+
 def check(case):
     from annet import implicit
     from annet.annlib.lib import merge_dicts
@@ -153,6 +272,12 @@ def check(case):
     dev = _device(model, tags)
     rules = implicit.compile_rules(dev)
     labels = ["family:%s%s" % (model, "+" + tags[0] if tags else "")]
+    # the defaults are those of THIS device (model and tags), whatever devices the process has served before
+    if _canon_rules(rules) != _baseline()[str(case["family"])]:
+        raise Violation("rules-depend-on-history", f"{model} tags={tags}: the implicit rules compiled now differ from those compiled for the "
+                        f"same device in a fresh process", {"model": model, "tags": tags})
+    if case.get("pipeline"):
+        _pipeline(case, dev, rules, labels)
     res = {}
     for name in ("t", "u"):
         t = RL.to_odict(case[name])
